@@ -242,7 +242,7 @@ PROPS["C12"] = dict(
 PROPS["C16"] = dict(
     lean_targets=["SJ.Props.C16", "SJ.Audit.C16"],
     configs=dict(quick=["d", "fr"], thorough=["d", "fr", "po", "ap"]),
-    gen_keys=[],
+    gen_keys=["fromvalue."],
     rule="(schema, value) pairs for the universal DeserializeSeed of harness/src/schema.rs, each run through from_value (Value by value), "
          "&Value and from_str(to_string(value)) followed by end(): a fixed corpus (every leaf target and every leaf under Option / newtype / "
          "Vec / 1-tuple against ~110 small values incl. every integer bound and number-literal spellings; tuples too short / exact / too "
@@ -254,7 +254,9 @@ PROPS["C16"] = dict(
          "mismatching at every level: wrong kind, out-of-range and just-in-range integers, floats for integers, extra / missing elements, "
          "unknown / missing / clashing fields, wrong variant payload shapes, ill-formed numeric keys) plus unrelated random values. "
          "Non-trivial = the schema is not a bare leaf or the value is an array/object; distinct = distinct case lines.",
-    trusted_base=[KERNEL, TIE,
+    trusted_base=[KERNEL, TIE + "; for C16 the translator regenerates the routing table of src/value/de.rs (per method: delegation, "
+                  "macro, or Value::K => callee arms; forward_to_deserialize_any lists; leftover checks; numeric-key guard) and "
+                  "c16_routing_tied compares it with the table the transcription was written against (a fingerprint)",
                   "the universal seed of harness/src/schema.rs: serde's own Deserialize impls for the leaves (bool, 12 integers, f32/f64, char, "
                   "String, (), IgnoredAny, serde_bytes::ByteBuf, Value) and hand-written copies of the visitor shapes serde_derive generates for "
                   "Option, newtype struct, Vec, fixed tuples, maps, structs (seq or map, __Field identifiers, deny_unknown_fields, "
